@@ -166,6 +166,12 @@ def correspondence(ctx):
                         us = [None] if kind == "multinomial" else [float(x) for x in rng.uniform(0.05, 0.95, size=2)]
                         for u0 in us:
                             cases.append(dict(kind=kind, ws=ws, hs=hs, lo=lo, bad=bad, table=table, maxd=maxd, extra=extra, mdh=mdh, start=start, u0=u0))
+        if not ctx.thorough:
+            # the extra sub-tree checks first see two multi-state halves at depth 3: a few deeper cases in the quick tier too
+            for kind in ("multinomial", "slice"):
+                for start in (-1, 2):
+                    cases.append(dict(kind=kind, ws=ws, hs=hs, lo=lo, bad=bad, table=table, maxd=3, extra=True, mdh=1000.0, start=start,
+                                      u0=None if kind == "multinomial" else 0.4))
         for _ in range(4 if not ctx.thorough else 12):
             cases.append(dict(kind="metro", ws=ws, hs=hs, lo=lo, bad=bad, table=table, n=int(rng.integers(1, 6)), start=int(rng.integers(-4, 5)),
                               d=int(rng.choice([-1, 1]))))
